@@ -135,6 +135,20 @@ pub fn marlin_trim(r: &TrimReq, seed: u64) -> Verdict {
     };
     let (must_accept, must_refuse) = r.classify();
     let res = catch(|| MarlinPC::trim(&pp, r.supported, r.hiding, r.bounds.as_deref()));
+    // the decision must not depend on the order in which the enforced bounds are listed
+    if let Some(b) = r.bounds.as_ref().filter(|b| b.len() >= 2) {
+        let accepted = matches!(res, Ok(Ok(_)));
+        let mut asc = b.clone();
+        asc.sort();
+        let mut desc = asc.clone();
+        desc.reverse();
+        for perm in [asc, desc] {
+            let other = matches!(catch(|| MarlinPC::trim(&pp, r.supported, r.hiding, Some(&perm))), Ok(Ok(_)));
+            if other != accepted {
+                return Verdict::viol("trim-order-dependent", format!("trim {} {:?} but {} the same bounds listed as {:?}", if accepted { "accepted" } else { "refused" }, r, if other { "accepted" } else { "refused" }, perm));
+            }
+        }
+    }
     let (ck, vk) = match res {
         Ok(Ok(k)) => {
             if must_refuse {
@@ -203,6 +217,20 @@ pub fn sonic_trim(r: &TrimReq, seed: u64) -> Verdict {
     };
     let (must_accept, must_refuse) = r.classify();
     let res = catch(|| SonicPC::trim(&pp, r.supported, r.hiding, r.bounds.as_deref()));
+    // the decision must not depend on the order in which the enforced bounds are listed
+    if let Some(b) = r.bounds.as_ref().filter(|b| b.len() >= 2) {
+        let accepted = matches!(res, Ok(Ok(_)));
+        let mut asc = b.clone();
+        asc.sort();
+        let mut desc = asc.clone();
+        desc.reverse();
+        for perm in [asc, desc] {
+            let other = matches!(catch(|| SonicPC::trim(&pp, r.supported, r.hiding, Some(&perm))), Ok(Ok(_)));
+            if other != accepted {
+                return Verdict::viol("trim-order-dependent", format!("trim {} {:?} but {} the same bounds listed as {:?}", if accepted { "accepted" } else { "refused" }, r, if other { "accepted" } else { "refused" }, perm));
+            }
+        }
+    }
     let (ck, vk) = match res {
         Ok(Ok(k)) => {
             if must_refuse {
